@@ -170,6 +170,9 @@ func (g *c03Gen) pickLit(t *c03Ty) *big.Int {
 	if maxBits > 15 {
 		maxBits = 15
 	}
+	if t.kind == 0 {
+		return big.NewInt(int64(g.r.Intn(2)))
+	}
 	if maxBits <= 0 {
 		return big.NewInt(0)
 	}
@@ -529,7 +532,7 @@ func (g *c03Gen) stmts(n, depth int, mayReturn, inLoop bool) ([]*c03Stmt, bool) 
 				} else {
 					et = t.fields[k]
 				}
-				out = append(out, &c03Stmt{tag: c03SStore, v: v, t: t, k: k, e: g.expr(et, 2)})
+				out = append(out, &c03Stmt{tag: c03SStore, v: v, t: t, k: k, e: g.storeValue(et, j == 0)})
 			}
 		case x < 88: // store into a visible composite
 			cs := g.varsOf(func(gv c03GV) bool { return gv.t.kind >= 3 })
@@ -546,7 +549,23 @@ func (g *c03Gen) stmts(n, depth int, mayReturn, inLoop bool) ([]*c03Stmt, bool) 
 				k = g.r.Intn(len(cv.t.fields))
 				et = cv.t.fields[k]
 			}
-			out = append(out, &c03Stmt{tag: c03SStore, v: cv.v, t: cv.t, k: k, e: g.expr(et, 2)})
+			if cv.t.kind == 3 && g.r.Intn(4) == 0 {
+				// partial copy from another visible array of the same element type
+				srcs := g.varsOf(func(gv c03GV) bool {
+					return gv.t.kind == 3 && gv.v.id != cv.v.id && gv.t.elem.equal(cv.t.elem)
+				})
+				if len(srcs) > 0 {
+					sv := srcs[g.r.Intn(len(srcs))]
+					// copy(d[0:k], s) with k < len(d) is rejected by the compiler
+					// (Copy.SSA treats dstFrom == 0 as "src overwrites dst fully":
+					// notes/C03-findings.md, C03-F5); generated from index 1 on
+					lo := g.r.Range(1, cv.t.n-1)
+					hi := g.r.Range(lo+1, cv.t.n)
+					out = append(out, &c03Stmt{tag: c03SCopy, v: cv.v, t: cv.t, sv: sv.v, st: sv.t, lo: lo, hi: hi})
+					continue
+				}
+			}
+			out = append(out, &c03Stmt{tag: c03SStore, v: cv.v, t: cv.t, k: k, e: g.storeValue(et, false)})
 		case x < 96 && g.fnIdx > 0 && (!inLoop || g.allowLoopDecl): // call of an earlier function
 			f := g.r.Intn(g.fnIdx)
 			callee := g.p.funcs[f]
@@ -570,6 +589,17 @@ func (g *c03Gen) stmts(n, depth int, mayReturn, inLoop bool) ([]*c03Stmt, bool) 
 		}
 	}
 	return out, false
+}
+
+// storeValue: the value of an element / field store: a run-time expression or
+// (a third of the stores, never the first store into a fresh composite) a
+// literal / T(loop counter), which the compiler keeps in a 32/64-bit container
+// wider than a narrow slot.
+func (g *c03Gen) storeValue(et *c03Ty, first bool) *c03Expr {
+	if !first && g.r.Intn(3) == 0 {
+		return g.constOperand(et)
+	}
+	return g.expr(et, 2)
 }
 
 // nestedMerge builds
@@ -678,6 +708,117 @@ func c03MergeFamily(round int) []*c03Prog {
 					out = append(out, g.p)
 				}
 			}
+		}
+	}
+	return out
+}
+
+// c03StoreFamily: element / field stores whose value has more wires than the
+// slot (a literal lives in a 32/64-bit container; copy() hands the whole
+// source array to amov), into slots that are NOT the last one, with live
+// run-time data in the neighbouring slots that is read back afterwards.
+// Enumerated over narrow element types; the same programs in every run.
+func c03StoreFamily(round int) []*c03Prog {
+	var out []*c03Prog
+	type tk struct{ kind, w int }
+	tys := []tk{{1, 8}, {2, 8}, {1, 16}, {0, 1}, {1, 3}, {2, 5}, {1, 31}}
+	if round > 0 {
+		tys = []tk{{1, 7}, {2, 9}, {1, 24}, {2, 1}, {1, 2}, {2, 12}, {1, 33}, {2, 40}}
+	}
+	n := 0
+	for _, k := range tys {
+		for tmpl := 0; tmpl < 4; tmpl++ {
+			n++
+			r := NewRNG(uint64(0x5707E + 1000*round + n))
+			g := &c03Gen{r: r, small: true}
+			g.p = &c03Prog{names: map[string]*c03Var{}, class: "storefamily"}
+			g.pool = []*c03Ty{c03Bool}
+			t := g.scalarTy(k.kind, k.w)
+			f := &c03Func{name: "main"}
+			x, y := g.newVar("a"), g.newVar("b")
+			f.params, f.ptys = []*c03Var{x, y}, []*c03Ty{t, t}
+			ev := func(v *c03Var) *c03Expr { return &c03Expr{tag: c03EVar, v: v} }
+			mix := func() *c03Expr { // a third run-time value of type t
+				if t.kind == 0 {
+					return &c03Expr{tag: c03EBin, op: c03Ne, t: t, a: ev(x), b: ev(y)}
+				}
+				return &c03Expr{tag: c03EBin, op: c03BXor, t: t, a: ev(x), b: ev(y)}
+			}
+			lit := func() *c03Expr {
+				for i := 0; i < 8; i++ {
+					if l := g.lit(t); l.n.Sign() != 0 {
+						return l
+					}
+				}
+				return g.lit(t)
+			}
+			arr := &c03Ty{kind: 3, n: 4, elem: t}
+			st := func(v *c03Var, ct *c03Ty, k int, e *c03Expr) *c03Stmt {
+				return &c03Stmt{tag: c03SStore, v: v, t: ct, k: k, e: e}
+			}
+			el := func(v *c03Var, ct *c03Ty, k int) *c03Expr {
+				rt := t
+				if ct.kind == 4 {
+					rt = ct.fields[k]
+				}
+				return &c03Expr{tag: c03ESlice, at: ct, t: rt, a: ev(v), k: k}
+			}
+			var body []*c03Stmt
+			var rets []*c03Expr
+			switch tmpl {
+			case 0: // literal into the first slot, neighbours live
+				v := g.newVar("v")
+				body = []*c03Stmt{{tag: c03SDeclZero, v: v, t: arr},
+					st(v, arr, 1, ev(x)), st(v, arr, 2, ev(y)), st(v, arr, 3, mix()), st(v, arr, 0, lit())}
+				for k := 0; k < 4; k++ {
+					rets = append(rets, el(v, arr, k))
+				}
+			case 1: // out of order, literal into a middle slot that was written before
+				v := g.newVar("v")
+				body = []*c03Stmt{{tag: c03SDeclZero, v: v, t: arr},
+					st(v, arr, 3, ev(x)), st(v, arr, 2, ev(y)), st(v, arr, 0, mix()), st(v, arr, 2, lit()),
+					st(v, arr, 1, lit())}
+				for k := 0; k < 4; k++ {
+					rets = append(rets, el(v, arr, k))
+				}
+			case 2: // struct: literal into the first field after the others were set
+				wide := g.scalarTy(2, 40)
+				sty := &c03Ty{kind: 4, name: "S0", fields: []*c03Ty{t, t, wide}}
+				g.p.structs = []*c03Ty{sty}
+				v := g.newVar("v")
+				var wideVal *c03Expr
+				if t.kind == 0 {
+					wideVal = &c03Expr{tag: c03ELit, t: wide, n: big.NewInt(1000)}
+				} else {
+					wideVal = &c03Expr{tag: c03ECast, t: t, to: wide, a: ev(x)}
+				}
+				body = []*c03Stmt{{tag: c03SDeclZero, v: v, t: sty},
+					st(v, sty, 1, ev(y)), st(v, sty, 2, wideVal), st(v, sty, 0, lit())}
+				if round%2 == 1 {
+					body = append(body, st(v, sty, 1, lit()))
+				}
+				for k := 0; k < 3; k++ {
+					rets = append(rets, el(v, sty, k))
+				}
+			case 3: // partial copy: the source is longer than the destination range
+				src := &c03Ty{kind: 3, n: 3, elem: t}
+				sv, dv := g.newVar("s"), g.newVar("d")
+				lo := 1 + round%2
+				body = []*c03Stmt{{tag: c03SDeclZero, v: sv, t: src},
+					st(sv, src, 0, ev(x)), st(sv, src, 1, ev(y)), st(sv, src, 2, mix()),
+					{tag: c03SDeclZero, v: dv, t: arr},
+					st(dv, arr, 3, ev(y)), st(dv, arr, 2, ev(x)),
+					{tag: c03SCopy, v: dv, t: arr, sv: sv, st: src, lo: lo, hi: lo + 2}}
+				for k := 0; k < 4; k++ {
+					rets = append(rets, el(dv, arr, k))
+				}
+			}
+			for _, e := range rets {
+				f.rets = append(f.rets, e.t)
+			}
+			f.body = append(body, &c03Stmt{tag: c03SReturn, es: rets})
+			g.p.funcs = []*c03Func{f}
+			out = append(out, g.p)
 		}
 	}
 	return out
@@ -1544,6 +1685,10 @@ func c03FailKey(p *c03Prog, kind string) string {
 	switch {
 	case ft["short-declaration-in-unrolled-loop-body"] && strings.HasPrefix(kind, "compile-error:no-new-variables"):
 		return "c03:src:for:short-declaration-in-unrolled-loop-body:" + kind
+	case (ft["composite-store-of-constant"] || ft["copy"]) && kind == "wrong-value" &&
+		!ft["shadow"] && !ft["sibling-scope-name-reuse"] && !ft["literal-operand:int<32:sign-sensitive"] &&
+		!ft["literal-left:uint:sign-sensitive"]:
+		return "c03:src:store:constant-or-longer-array-into-composite-slot:" + kind
 	case ft["shadow"]:
 		return "c03:src:shadow:declaration-in-nested-block-of-outer-name:" + kind
 	case ft["nested-conditional-assignment-in-both-arms"] && kind == "wrong-value" &&
@@ -1657,6 +1802,9 @@ func runC03(c *Ctx) error {
 	for round := 0; round < c.N(1, 12); round++ {
 		family = append(family, c03MergeFamily(round)...)
 	}
+	for round := 0; round < c.N(1, 2); round++ {
+		family = append(family, c03StoreFamily(round)...)
+	}
 	nProg += len(family)
 	for i := 0; i < nProg; i++ {
 		r := c.rng.Fork()
@@ -1668,7 +1816,7 @@ func runC03(c *Ctx) error {
 		var p *c03Prog
 		if i >= nProg-len(family) {
 			p = family[i-(nProg-len(family))]
-			class = "mergefamily"
+			class = p.class
 		} else {
 			p = c03Generate(r, class, small, !c.Thorough())
 		}
